@@ -79,7 +79,7 @@ class Closure:
 
 
 SAFE_METHODS = {
-    list: {'append', 'extend', 'pop', 'insert', 'index', 'copy', 'count'},
+    list: {'append', 'extend', 'pop', 'insert', 'index', 'copy', 'count', 'reverse', 'sort', 'remove', 'clear'},
     dict: {'get', 'items', 'keys', 'values', 'pop', 'setdefault', 'copy', 'update'},
     str: {'upper', 'lower', 'strip', 'split', 'startswith', 'endswith', 'join', 'replace', 'isdigit', 'format'},
     set: {'add', 'discard', 'copy', 'update'},
@@ -234,6 +234,18 @@ class Interp:
             o[self.ev(t.slice, env)] = v
         elif isinstance(t, (ast.Tuple, ast.List)):
             vs = list(v)
+            star = [i for i, a in enumerate(t.elts) if isinstance(a, ast.Starred)]
+            if star:
+                i = star[0]
+                after = len(t.elts) - i - 1
+                if len(vs) < len(t.elts) - 1:
+                    raise Raised('ValueError', t)
+                for a, b in zip(t.elts[:i], vs[:i]):
+                    self.assign(a, b, env)
+                self.assign(t.elts[i].value, vs[i:len(vs) - after], env)
+                for a, b in zip(t.elts[i + 1:], vs[len(vs) - after:]):
+                    self.assign(a, b, env)
+                return
             if len(vs) != len(t.elts):
                 raise Raised('ValueError', t)
             for a, b in zip(t.elts, vs):
@@ -433,6 +445,8 @@ class Interp:
                     return getattr(base, f.attr)(*args, **kwargs)
             if isinstance(base, ClassRef) and base.name == 'str' and f.attr in SAFE_METHODS[str]:
                 return getattr(str, f.attr)(*args)
+            if not isinstance(base, (Obj, ClassRef)) and not hasattr(base, f.attr):
+                raise Raised('AttributeError', e)       # what Python does: e.g. [].lower()
             raise AnalysisError(f'interpreter: call of `{ftxt}` on {type(base).__name__} is not modelled')
         if isinstance(f, Closure) or callable(f):
             return f(*args, **kwargs)
